@@ -1,4 +1,6 @@
 import JT.Proof.GoModel8003
+import JT.Model.Parse
+import JT.Proof.GoFrame
 /-!
 # C14 — the 0x8003 re-request codec as it stands in the source
 
@@ -17,5 +19,24 @@ theorem source_8003_roundtrip (fuel : Nat) (p q : model_P0x8003) (j : Gen.GoFram
         r.OriginalSerialNumber = p.OriginalSerialNumber ∧ r.AgainPackageList = p.AgainPackageList := by
   obtain ⟨body, h1, r, h2, a1, _, a3⟩ := roundtrip_8003 fuel p q j hc hf
   exact ⟨body, h1, r, h2, a1, a3⟩
+
+/-- **The body of the re-request, translated source = model**: what `supplementarySubPackage` puts into the 0x8003 frame
+is `P0x8003.Encode` of (serial of the first packet, count, the missing numbers); the translated encoder produces exactly
+the bytes the reassembly model prescribes (`JT.Parse.body8003`: serial, count byte, two bytes per missing number, in order)
+for every serial and every list of numbers — so `rerequest_exact` speaks about the bytes the source writes. -/
+theorem source_rerequest_body (fuel : Nat) (p : model_P0x8003)
+    (hc : p.AgainPackageCount = UInt8.ofNat p.AgainPackageList.length) (hf : p.AgainPackageList.length < fuel) :
+    model_P0x8003_Encode fuel p = .ok (JT.Parse.body8003 p.OriginalSerialNumber.toNat (p.AgainPackageList.map (·.toNat))) := by
+  rw [Gen.GoModel.encode_8003 fuel p hf]
+  unfold JT.Parse.body8003
+  have hb : ∀ v : UInt16, Gen.GoModel.enc8003 v = toBE 2 v.toNat := fun v => Gen.GoFrame.be16_toBE v
+  have hfm : p.AgainPackageList.flatMap Gen.GoModel.enc8003 = (p.AgainPackageList.map (·.toNat)).flatMap (toBE 2) := by
+    induction p.AgainPackageList with
+    | nil => rfl
+    | cons v r ih => simp only [List.flatMap_cons, List.map_cons, hb, ih]
+  have hs := Gen.GoFrame.be16_toBE p.OriginalSerialNumber
+  unfold Go.be16 at hs
+  rw [hfm, hc, List.length_map, ← hs]
+  simp
 
 end JT.C14
